@@ -788,3 +788,525 @@ class C24(HistoryCheck):
 
 
 CHECKS.update({'C01': C01(), 'C08': C08(), 'C24': C24()})
+
+
+# =========================================================================== C07
+def gen_roundtrip(rng, world, invalid=False):
+    cands = []
+    for c in world['comps']:
+        for o in c['outs']:
+            cands.append((o, 'ivc' if c['kind'] == 'ivc' else 'out'))
+        for i in c['ins']:
+            if i.get('via') == 'auto':
+                cands.append((i, 'auto'))
+    v, kind = rng.choice(cands)
+    n = int(np.prod(v['shape']))
+    op = {'op': 'roundtrip', 'var': v['name'], 'form': rng.choice(['prom', 'abs']), 'kind': kind,
+          'vals': [spec.dyadic(rng, -4, 4, 4) for _ in range(n)]}
+    if rng.random() < 0.6:
+        forms = ['list', 'slice', 'int', 'negslice', 'neglist'] if len(v['shape']) == 1 else \
+            ['tuple', 'ellipsis', 'nonflat_list', 'tuple', 'int']
+        idx, _ = spec.gen_index(rng, v['shape'], forms)
+        if idx is not None:
+            if idx['k'] == 'int' and len(v['shape']) > 1:
+                idx = {'k': 'int', 'v': rng.randint(-v['shape'][0], v['shape'][0] - 1)}
+            sel, _shape = spec.apply_index(v['shape'], idx, False)
+            if len(set(sel)) == len(sel):      # a position written twice has no defined round trip
+                op['idx'] = idx
+    if v['units'] is not None and rng.random() < 0.5:
+        op['units'] = spec.compatible(v['units'], rng, allow_big=True)
+        f, o = spec.conv(op['units'], v['units'])
+        op['vals'] = [(x - o) / f for x in op['vals']]      # moderate in the variable's own units
+    if invalid:
+        op['invalid'] = rng.choice(['units', 'shape', 'index'])
+        if op['invalid'] == 'units':
+            op['units'] = 'kg' if v['units'] is not None else 'm'
+            if v['units'] is None:
+                op['invalid'] = 'shape'
+        if op['invalid'] == 'index':
+            op['idx'] = {'k': 'int', 'v': v['shape'][0] + 3}
+    return op
+
+
+class C07(WorldCheck):
+    pid = 'C07'
+    rule = ("plans = generated models x addressable names (absolute / promoted; IVC outputs, component outputs, "
+            "auto-IVC-backed inputs) x index forms x compatible unit strings x one logical set/get sequence issued "
+            "in three phase placements (before final_setup, after final_setup, after run_model), with component "
+            "faults in the runs between and invalid-argument calls after final_setup; reference store keyed by "
+            "variable; distinct = event-log digests; non-trivial = at least one round trip used indices or units")
+    assumptions = ["connected (non auto-IVC) inputs are not used as set_val targets (setting them writes through to the "
+                   "source by design)",
+                   "unit round trips compared to 1e-12 relative of |value|+|offset|; everything else exactly",
+                   "invalid-argument calls are issued only after final_setup (before it the framework collects the "
+                   "error and raises it at final_setup by design)"]
+    knobs = dict(ALL_KNOBS)
+
+    def world_knobs(self, rng):
+        k = dict(ALL_KNOBS)
+        k.update(cycle=rng.choice([0.0, 0.5]), imp=rng.choice([0.0, 0.3]), scaling=rng.choice([0.0, 0.3]),
+                 neg_scaling=True, res_ref=True, auto_ivc=0.5)
+        return k
+
+    def gen_ops(self, rng, plan):
+        w = plan['world']
+        seq = [gen_roundtrip(rng, w) for _ in range(rng.randint(2, 6))]
+        ops = [{'op': 'setup'}]
+        ops += [dict(o, phase='pre') for o in seq]
+        ops.append({'op': 'final_setup'})
+        ops += [dict(o, phase='post') for o in seq]
+        for _ in range(rng.randint(0, 2)):
+            ops.append(gen_roundtrip(rng, w, invalid=True))
+        if rng.random() < 0.4:
+            ops += gen_faults(rng, w, 1, methods=['compute', 'solve_nonlinear'])
+        ops.append({'op': 'run_model'})
+        ops.append({'op': 'run_model'})
+        ops += [dict(o, phase='run') for o in seq]
+        for _ in range(rng.randint(0, 2)):
+            ops.append(gen_roundtrip(rng, w, invalid=True))
+        return ops
+
+    def nontrivial(self, plan, st, faults, probes):
+        return probes.get('roundtrip_with_idx_or_units', 0) > 0
+
+    def execute(self, plan, log, st, faults, probes, viol):
+        sim = Sim(plan, log, set(), st=st, probes=probes)
+        w = sim.world
+        results = {}
+
+        def snapshot():
+            out = {}
+            for c in w['comps']:
+                for o in c['outs']:
+                    out[o['name']] = np.array(sim.p.get_val(sim.absn(o['name']))).copy()
+                for i in c['ins']:
+                    # user-visible value of independent (auto-IVC backed) inputs; connected inputs are a
+                    # function of their source and are judged after the run instead
+                    if i.get('via') == 'auto':
+                        out[i['name']] = np.array(sim.p.get_val(sim.absn(i['name']))).copy()
+            return out
+
+        def roundtrip(op):
+            c, io_, v = sim.own[op['var']]
+            name = sim.absn(op['var']) if op['form'] == 'abs' else sim.promn(op['var'])
+            sel, shape = spec.apply_index(v['shape'], op.get('idx'), False)
+            vals = np.resize(np.array(op['vals'], dtype=float), len(sel)).reshape(shape)
+            if op.get('idx') is not None and np.ndim(np.zeros(v['shape'])[spec.decode_index(op['idx'])]) == 0:
+                vals = vals.reshape(())
+            kw = {}
+            if op.get('idx') is not None:
+                kw['indices'] = B.to_index(op['idx'])
+            if op.get('units'):
+                kw['units'] = op['units']
+            before = snapshot()
+            sim.p.set_val(name, vals, **kw)
+            got = np.array(sim.p.get_val(name, **kw))
+            after = snapshot()
+            f, o = spec.conv(op.get('units'), v['units']) if op.get('units') else (1.0, 0.0)
+            tol = 0.0 if (f == 1.0 and o == 0.0) else 1e-12 * (np.abs(vals).max() + abs(o / f) + 1.0)
+            if got.shape != vals.shape and got.size == vals.size:
+                got = got.reshape(vals.shape)
+            if got.shape != vals.shape or not np.all(np.abs(got - vals) <= tol):
+                viol.append({'inv': 'I-07-roundtrip', 'msg': f"phase {op.get('phase')}: set_val({name!r}, "
+                             f"{vals.tolist()}, {kw}) then get_val returned {got.tolist()}"})
+                return None
+            # every other entry of every variable is unchanged
+            for nm in before:
+                if nm == op['var']:
+                    b, a = before[nm].ravel().copy(), after[nm].ravel().copy()
+                    mask = np.ones(b.size, dtype=bool)
+                    mask[sel] = False
+                    same = np.array_equal(b[mask], a[mask])
+                    want = vals.ravel() * f + o
+                    hit = relerr(a[sel], want) <= 1e-12
+                    if not hit:
+                        viol.append({'inv': 'I-07-stored', 'msg': f"phase {op.get('phase')}: after set_val({name!r}, "
+                                     f"{vals.tolist()}, {kw}) the variable holds {a.tolist()} (expected "
+                                     f"{want.tolist()} at {sel})"})
+                        return None
+                else:
+                    same = np.array_equal(before[nm], after[nm])
+                if not same:
+                    viol.append({'inv': 'I-07-others', 'msg': f"phase {op.get('phase')}: set_val({name!r}, {kw}) "
+                                 f"changed other entries: {nm} {before[nm].tolist()} -> {after[nm].tolist()}"})
+                    return None
+            if op.get('idx') is not None or op.get('units'):
+                probes.inc('roundtrip_with_idx_or_units')
+            st.inc('roundtrips')
+            # keep the reference's independent values in step
+            key = op['var'] if op['kind'] == 'ivc' else ('_auto:' + op['var'] if op['kind'] == 'auto' else None)
+            if key is not None:
+                cur = sim.ref.indep[key].copy()
+                cur[sel] = vals.ravel() * f + o
+                sim.ref.indep[key] = cur
+            sim.clean = False
+            return got
+
+        def invalid(op):
+            c, io_, v = sim.own[op['var']]
+            name = sim.absn(op['var']) if op['form'] == 'abs' else sim.promn(op['var'])
+            kw = {}
+            if op.get('idx') is not None:
+                kw['indices'] = B.to_index(op['idx'])
+            if op.get('units'):
+                kw['units'] = op['units']
+            n = int(np.prod(v['shape']))
+            vals = np.ones(n + 2) if op['invalid'] == 'shape' else np.ones(v['shape'])
+            if op['invalid'] == 'index':
+                vals = 1.0
+            before = snapshot()
+            try:
+                sim.p.set_val(name, vals, **kw)
+                raised = False
+            except Exception as e:      # noqa
+                raised = True
+                log.ev('invalid-raised', type(e).__name__)
+            after = snapshot()
+            if not raised:
+                viol.append({'inv': 'I-07-invalid-accepted', 'msg': f"set_val({name!r}, shape {np.shape(vals)}, {kw}) "
+                             f"with invalid {op['invalid']} did not raise"})
+                return
+            for nm in before:
+                if not np.array_equal(before[nm], after[nm], equal_nan=True):
+                    viol.append({'inv': 'I-07-failed-set-changed-state', 'msg': f"rejected set_val({name!r}, {kw}) "
+                                 f"changed {nm}: {before[nm].tolist()} -> {after[nm].tolist()}"})
+                    return
+            st.inc('invalid_sets_rejected')
+
+        for op in plan['ops']:
+            if op['op'] == 'roundtrip':
+                st.inc('ops')
+                log.ev('op', 'roundtrip', op.get('phase'), op['var'])
+                try:
+                    import contextlib, io
+                    with contextlib.redirect_stdout(io.StringIO()):
+                        if op.get('invalid'):
+                            invalid(op)
+                            got = None
+                        else:
+                            got = roundtrip(op)
+                except Exception as e:      # noqa
+                    import traceback
+                    tb = traceback.extract_tb(e.__traceback__)
+                    if not any('/repo/' in f.filename for f in tb):
+                        raise
+                    viol.append({'inv': 'I-07-exception', 'msg': f"phase {op.get('phase')}: {op} raised "
+                                 f"{type(e).__name__}: {str(e)[:300]}",
+                                 'ctx': type(e).__name__})
+                    got = None
+                if viol:
+                    return
+                if got is not None and not op.get('invalid'):
+                    log.ev('got', got)
+            else:
+                res, raised, fired = sim.do(op)
+                for f in sim.rt.fired[len(sim.rt.fired) - fired:]:
+                    faults.inc(f['kind'] + ':' + f['method'])
+                if sim.viol:
+                    viol.extend(sim.viol)
+                    return
+                if sim.void:
+                    return
+                if op['op'] == 'run_model' and raised is None and sim.clean:
+                    # the values set before the run are what the model ran with
+                    if not sim.check_values(inv_out='I-07-run-outputs', inv_in='I-07-run-inputs'):
+                        viol.extend(sim.viol)
+                        return
+
+
+CHECKS['C07'] = C07()
+
+
+# =========================================================================== C31
+READONLY = ('totals', 'jacvec', 'check_partials', 'check_totals', 'list_outputs', 'list_inputs', 'list_vars',
+            'coloring')
+
+
+def gen_readonly(rng, world):
+    k = rng.choice(['totals', 'totals', 'jacvec', 'check_partials', 'check_totals', 'check_totals', 'list_outputs',
+                    'list_inputs', 'list_vars', 'coloring'])
+    if k == 'totals':
+        return gen_totals_op(rng, world)
+    if k == 'jacvec':
+        return {'op': 'jacvec', 'seed': rng.randint(0, 999)}
+    if k == 'check_partials':
+        return {'op': 'check_partials', 'method': rng.choice(['fd', 'fd', 'cs'])}
+    if k == 'check_totals':
+        return {'op': 'check_totals', 'directional': rng.random() < 0.4, 'method': rng.choice(['fd', 'fd', 'cs'])}
+    if k == 'coloring':
+        return {'op': 'coloring', 'num_full_jacs': rng.choice([1, 2, 3])}
+    return {'op': k}
+
+
+def c31_history(rng, world):
+    ops = [{'op': 'setup'}, {'op': 'run_model'}]
+    nf = 0
+    for _ in range(rng.randint(3, 9)):
+        r = rng.random()
+        if r < 0.2:
+            ops.append(gen_set(rng, world, with_units=rng.random() < 0.3, with_idx=rng.random() < 0.3))
+            ops.append({'op': 'run_model'})
+        elif r < 0.3 and nf < 2:
+            ops += gen_faults(rng, world, 1, kinds=('analysis_error',))
+            ops.append({'op': 'run_model'})
+            ops.append({'op': 'run_model'})
+            nf += 1
+        elif r < 0.4:
+            ops.append({'op': 'rerun_restored'})
+        else:
+            ops.append(gen_readonly(rng, world))
+    return ops
+
+
+class C31(WorldCheck):
+    pid = 'C31'
+    digest_mismatch_is_violation = True
+
+    def budget(self, tier):
+        if tier == 'thorough':
+            return {'runs': 30000, 'time': 1200.0, 'run_cap': 180.0, 'selftest': 100}
+        return {'runs': 1500, 'time': 55.0, 'run_cap': 180.0, 'selftest': 12}
+
+    rule = ("plans = two independent generated worlds with their own API-call histories (run_model, set_val, "
+            "compute_totals, compute_jacvec_product, check_partials, check_totals incl. directional, total coloring, "
+            "list_*, AnalysisError faults, re-run from a restored state) + a seeded interleaving of the two "
+            "histories in one interpreter with global-RNG perturbation events; each world's model-visible log "
+            "(state hashes, totals, jacvec results) must equal the log of its solo execution, read-only calls must "
+            "leave inputs and outputs bitwise unchanged; distinct = event-log digests; non-trivial = at least one "
+            "read-only call was bracketed by state hashes and the interleaving switched worlds at least twice")
+    assumptions = ["complex-step checks are requested only when the problem was set up with force_alloc_complex",
+                   "values of directional check_totals / check_partials are random by documentation and are not part of "
+                   "the compared log (their effect on model state is)",
+                   "residual vectors are not part of the read-only invariant (the statement names inputs and outputs)",
+                   "re-run from a restored state must be bitwise equal for RunOnce/NLBGS(no Aitken)/NLBJ/Newton stacks and "
+                   "equal to solver tolerance for stacks with documented memory (Broyden, Aitken)"]
+
+    def world_knobs(self, rng):
+        k = dict(ALL_KNOBS)
+        k.update(ncomp=(2, 5), cycle=rng.choice([0.0, 0.5]), imp=rng.choice([0.0, 0.3]), quad=rng.choice([0.0, 0.4]),
+                 scaling=rng.choice([0.0, 0.3]), res_ref=True, mf=rng.choice([0.0, 0.1]),
+                 approx=rng.choice([0.0, 0.0, 0.3]), nl=['nlbgs', 'newton', 'nlbj', 'broyden'])
+        return k
+
+    def gen(self, rng, tier):
+        wa = spec.gen_world(rng, self.world_knobs(rng))
+        wb = spec.gen_world(rng, self.world_knobs(rng))
+        plan = {'world': wa, 'world2': wb,
+                'knobs': {'mode': rng.choice(['auto', 'fwd', 'rev']), 'complex': rng.random() < 0.5},
+                'knobs2': {'mode': rng.choice(['auto', 'fwd', 'rev']), 'complex': rng.random() < 0.5},
+                'ops': c31_history(rng, wa), 'ops2': c31_history(rng, wb)}
+        na, nb = len(plan['ops']), len(plan['ops2'])
+        sched = ['a'] * na + ['b'] * nb
+        rng.shuffle(sched)
+        # global events between steps
+        plan['schedule'] = []
+        for s in sched:
+            if rng.random() < 0.15:
+                plan['schedule'].append(['rng', rng.randint(0, 2 ** 31 - 1), rng.randint(0, 5)])
+            plan['schedule'].append([s])
+        return plan
+
+    def nontrivial(self, plan, st, faults, probes):
+        return probes.get('readonly_bracketed', 0) > 0 and probes.get('world_switches', 0) >= 2
+
+    def shape_of(self, plan, st):
+        return WorldCheck.shape_of(self, plan, st) + '+' + WorldCheck.shape_of(
+            self, {'world': plan['world2'], 'knobs': plan['knobs2']}, st)
+
+    def _step(self, sim, op, mlog, viol, faults, probes):
+        """Execute one op on one sim, append model-visible results to mlog."""
+        kind = op['op']
+        memoryless = all(s['nl'] in ('runonce', 'nlbj', 'newton') or (s['nl'] == 'nlbgs' and not s.get('aitken'))
+                         for s in sim.world['solvers'].values())
+        if kind in ('check_partials', 'check_totals') and op.get('method') == 'cs' and not sim.knobs.get('complex'):
+            op = dict(op, method='fd')
+        if kind == 'rerun_restored':
+            if not sim.final:
+                return True
+            m = sim.p.model
+            x0, y0 = m._inputs.asarray(copy=True), m._outputs.asarray(copy=True)
+            r1, e1, f1 = sim.do({'op': 'run_model'})
+            out1 = m._outputs.asarray(copy=True)
+            m._inputs.set_val(x0)
+            m._outputs.set_val(y0)
+            r2, e2, f2 = sim.do({'op': 'run_model'})
+            out2 = m._outputs.asarray(copy=True)
+            if sim.viol or sim.void:
+                return not sim.viol
+            if e1 is None and e2 is None and f1 == 0 and f2 == 0:
+                sim.probes.inc('rerun_from_restored_state')
+                same = np.array_equal(out1, out2, equal_nan=True) if memoryless else relerr(out1, out2) <= sim.tol
+                if not same:
+                    viol.append({'inv': 'I-31b-rerun', 'msg': f"[{sim.name}] run_model twice from the same restored "
+                                 f"state gave different outputs (max diff {np.nanmax(np.abs(out1 - out2))!r}, "
+                                 f"solvers {sim.world['solvers']})"})
+                    return False
+            mlog.append(('rerun', out2.tobytes()))
+            return True
+        bracket = kind in READONLY and sim.final
+        before = sim.state_bytes() if bracket else None
+        ctx_state = np.concatenate([sim.p.model._inputs.asarray(), sim.p.model._outputs.asarray()]).copy() \
+            if bracket else None
+        if kind == 'coloring' and not sim.final:
+            return True
+        res, raised, fired = sim.do(op)
+        for f in sim.rt.fired[len(sim.rt.fired) - fired:]:
+            faults.inc(f['kind'] + ':' + f['method'])
+        if sim.viol:
+            viol.extend(sim.viol)
+            return False
+        if sim.void:
+            return True
+        if bracket and raised is None and fired == 0:
+            probes.inc('readonly_bracketed')
+            after = sim.state_bytes()
+            changed = after != before
+            if changed and any(any(k in o for k in ('ref', 'ref0', 'res_ref')) for c in sim.world['comps']
+                               for o in c['outs']):
+                # with solver scaling, derivative queries put vectors through a scale/unscale round trip:
+                # last-bit drift is not a leak (a leaked FD/CS perturbation is >= 1e-8 relative)
+                na = np.frombuffer(before, dtype=np.uint8)
+                xa = np.concatenate([np.frombuffer(x, dtype=float) for x in before.split(b'|')]) \
+                    if len(before) % 8 == (len(before.split(b'|')) - 1) % 8 else None
+                m = sim.p.model
+                cur = np.concatenate([m._inputs.asarray(), m._outputs.asarray()])
+                old = ctx_state
+                changed = not np.allclose(cur, old, rtol=1e-13, atol=1e-13 * (1 + np.abs(old).max()), equal_nan=True)
+                if not changed:
+                    probes.inc('scaled_roundtrip_ulp_drift')
+            if changed:
+                viol.append({'inv': 'I-31a-readonly', 'msg': f"[{sim.name}] {kind} ({ {k: v for k, v in op.items() if k != 'op'} }) "
+                             f"changed the model's inputs/outputs", 'ctx': kind})
+                return False
+        if sim.p is not None and sim.final:
+            mlog.append((kind, sim.state_bytes()))
+        if kind == 'totals' and res is not None:
+            mlog.append(('T', [(k, v) for k, v in sorted(res.items())]))
+        if kind == 'jacvec' and res is not None:
+            mlog.append(('JV', [(k, v) for k, v in sorted(res['Jv'].items())] +
+                         [(k, v) for k, v in sorted(res['JTw'].items())]))
+        if raised is not None:
+            mlog.append(('raised', type(raised).__name__))
+        return True
+
+    def execute(self, plan, log, st, faults, probes, viol):
+        import copy as _c
+        pa = {'world': plan['world'], 'knobs': plan['knobs']}
+        pb = {'world': plan['world2'], 'knobs': plan['knobs2']}
+
+        def solo(p_, ops, name):
+            sim = Sim(p_, log, set(), name=name, st=st, probes=probes)
+            ml = []
+            for op in ops:
+                if not self._step(sim, _c.deepcopy(op), ml, viol, faults, probes):
+                    return None
+                if sim.void:
+                    return 'void'
+            return ml
+        reset_process_state(plan.get('run_seed', 0))
+        la = solo(pa, plan['ops'], 'a')
+        if viol or la is None:
+            return
+        reset_process_state(plan.get('run_seed', 0))
+        lb = solo(pb, plan['ops2'], 'b')
+        if viol or lb is None:
+            return
+        if la == 'void' or lb == 'void':
+            return
+        # interleaved execution in one interpreter
+        reset_process_state(plan.get('run_seed', 0))
+        sa = Sim(pa, log, set(), name='a', st=Counter(), probes=probes)
+        sb = Sim(pb, log, set(), name='b', st=Counter(), probes=probes)
+        ia = ib = 0
+        ma, mb = [], []
+        dummy = Counter()
+        last = None
+        for ev in plan['schedule']:
+            if ev[0] == 'rng':
+                np.random.seed(ev[1])
+                for _ in range(ev[2]):
+                    np.random.random()
+                probes.inc('rng_perturbations')
+                continue
+            if ev[0] == 'a' and ia < len(plan['ops']):
+                ok = self._step(sa, _c.deepcopy(plan['ops'][ia]), ma, viol, dummy, Counter())
+                ia += 1
+            elif ev[0] == 'b' and ib < len(plan['ops2']):
+                ok = self._step(sb, _c.deepcopy(plan['ops2'][ib]), mb, viol, dummy, Counter())
+                ib += 1
+            else:
+                continue
+            if last is not None and last != ev[0]:
+                probes.inc('world_switches')
+            last = ev[0]
+            if not ok or viol:
+                return
+        def same(x, y, sim):
+            if x[0] != y[0]:
+                return False
+            if x[0] in ('T', 'JV'):
+                # derivative results of iterative linear solvers depend on the linear vectors' previous
+                # content (their initial guess) within the solver tolerance; direct stacks must be bitwise
+                iterative = any(s_['ln'] in ('lnbgs', 'lnbj', 'krylov') for s_ in sim.world['solvers'].values())
+                if len(x[1]) != len(y[1]):
+                    return False
+                for (k1, v1), (k2, v2) in zip(x[1], y[1]):
+                    if k1 != k2:
+                        return False
+                    if iterative:
+                        if relerr(v1, v2, floor=1e-3 + float(np.abs(v2).max() if v2.size else 0)) > sim.tol * 10:
+                            return False
+                    elif not np.array_equal(v1, v2, equal_nan=True):
+                        return False
+                return True
+            return x == y
+
+        for nm, solo_log, inter, sim_ in (('a', la, ma, sa), ('b', lb, mb, sb)):
+            if len(solo_log) != len(inter) or not all(same(x, y, sim_) for x, y in zip(solo_log, inter)):
+                k = next((i for i, (x, y) in enumerate(zip(solo_log, inter)) if not same(x, y, sim_)),
+                         min(len(solo_log), len(inter)))
+                what = solo_log[k][0] if k < len(solo_log) else 'length'
+                viol.append({'inv': 'I-31c-interleave', 'msg': f"world {nm}: model-visible log differs between solo and "
+                             f"interleaved execution at entry {k} ({what}); solo {len(solo_log)} entries, interleaved "
+                             f"{len(inter)}", 'ctx': str(what)})
+                return
+        import hashlib as _h
+        log.ev('mlog', _h.sha1(repr([[(e[0], e[1] if isinstance(e[1], (bytes, str)) else
+                                         [(k, v.tobytes()) for k, v in e[1]]) for e in l_] for l_ in (la, lb)]
+                                    ).encode()).hexdigest())
+
+    def candidates(self, plan):
+        # drop ops of either history (and the matching schedule entries)
+        for key, tag in (('ops', 'a'), ('ops2', 'b')):
+            ops = plan[key]
+            for a, b in list(_chunks(len(ops) - 1)):
+                c = copy.deepcopy(plan)
+                c[key] = ops[:1] + ops[1:][:a] + ops[1:][b:]
+                removed = b - a
+                sched = []
+                seen = 0
+                for ev in c['schedule']:
+                    if ev[0] == tag:
+                        seen += 1
+                        if seen > len(c[key]):
+                            continue
+                    sched.append(ev)
+                c['schedule'] = sched
+                yield c
+        if any(ev[0] == 'rng' for ev in plan['schedule']):
+            c = copy.deepcopy(plan)
+            c['schedule'] = [ev for ev in c['schedule'] if ev[0] != 'rng']
+            yield c
+        # de-interleave
+        c = copy.deepcopy(plan)
+        c['schedule'] = [ev for ev in plan['schedule'] if ev[0] == 'a'] + [ev for ev in plan['schedule'] if ev[0] != 'a']
+        if c['schedule'] != plan['schedule']:
+            yield c
+        for k in ('knobs', 'knobs2'):
+            if plan[k].get('complex'):
+                c = copy.deepcopy(plan)
+                c[k]['complex'] = False
+                yield c
+
+
+CHECKS['C31'] = C31()
